@@ -75,11 +75,20 @@ def validPath (key : Bytes) : Bool :=
   validUTF8 key && (key == dot || (splitSlash key).all goodElem)
 
 /-- `filepath.Localize(key)` on Unix followed by what `filepath.Join(dir, ·)` appends to `dir`:
-`none` = the key is rejected; `"."` denotes the directory itself (no component). -/
-def localize (key : Bytes) : Option Path :=
+`none` = the key is rejected; `"."` is accepted by the standard library and denotes the directory
+itself (no component). -/
+def stdLocalize (key : Bytes) : Option Path :=
   if validPath key && !key.contains 0 then
     some (if key == dot then [] else splitSlash key)
   else none
+
+/-- The helper `localize(key)` of `internal/ctlog/local.go` (since commit 9a1f05e):
+`filepath.Localize`, and additionally the name `"."` ("key names the backend directory itself") is
+refused. `none` = the key is rejected before any system call. -/
+def localize (key : Bytes) : Option Path :=
+  match stdLocalize key with
+  | some [] => none
+  | r => r
 
 /-! ## The read buffer of `compareFile` -/
 
@@ -137,10 +146,10 @@ structure Program where
   buf : BufExpr
   deriving DecidableEq, Repr
 
-/-- The code as found: `make([]byte, min(len(data), 16384))`. -/
+/-- The code before commit 1e3891a (finding F1): `make([]byte, min(len(data), 16384))`. -/
 def program : Program := { buf := .min .len (.lit 16384) }
 
-/-- The code with a one-byte lower bound on the buffer (the expected repair of F1). -/
+/-- The code since commit 1e3891a: `make([]byte, max(1, min(len(data), 16384)))`. -/
 def programGuarded : Program := { buf := .max (.lit 1) (.min .len (.lit 16384)) }
 
 def Program.bufLen (P : Program) (dataLen : Nat) : Nat := P.buf.eval dataLen
@@ -623,7 +632,7 @@ def compareFile (P : Program) : List String :=
 immutable compare branch, the deferred best-effort inode flag, WriteFile. -/
 def upload : List String :=
   ["defer prometheus.NewTimer(s.duration.WithLabelValues(\"upload\")).ObserveDuration()",
-   "name, err := filepath.Localize(key)", "if err != nil", ">return fmtErrorf",
+   "name, err := localize(key)", "if err != nil", ">return fmtErrorf",
    "path := filepath.Join(s.dir, name)",
    "if err := durable.MkdirAll(filepath.Dir(path), " ++ goOctal modeDir ++ "); err != nil", ">return fmtErrorf",
    "var perms os.FileMode = " ++ goOctal modeDefault,
@@ -642,15 +651,22 @@ def upload : List String :=
    ">>err = f.Close()",
    "return durable.WriteFile(path, data, perms)"]
 
+/-- The helper `localize` (`LocalFS.localize`): `filepath.Localize`, then `"."` refused. -/
+def localizeHelper : List String :=
+  ["name, err := filepath.Localize(key)",
+   "if err == nil && name == \".\"",
+   ">err = errors.New(\"key names the backend directory itself\")",
+   "return name, err"]
+
 def fetch : List String :=
   ["defer prometheus.NewTimer(s.duration.WithLabelValues(\"fetch\")).ObserveDuration()",
-   "name, err := filepath.Localize(key)", "if err != nil", ">return nil, fmtErrorf",
+   "name, err := localize(key)", "if err != nil", ">return nil, fmtErrorf",
    "path := filepath.Join(s.dir, name)",
    "return os.ReadFile(path)"]
 
 def discard : List String :=
   ["defer prometheus.NewTimer(s.duration.WithLabelValues(\"discard\")).ObserveDuration()",
-   "name, err := filepath.Localize(key)", "if err != nil", ">return fmtErrorf",
+   "name, err := localize(key)", "if err != nil", ">return fmtErrorf",
    "path := filepath.Join(s.dir, name)",
    "f, err := os.Open(path)", "if err != nil", ">return fmtErrorf",
    "immutable.Unset(f)",
